@@ -163,6 +163,58 @@ def release_always_lets_go(ctx: Ctx, rid: str = "C19.R13") -> None:
                "after release() the provider does not claim the lock", witness=ctx.path_witness(f, w2) if clr else None, text=ci.name + ":flag")
 
 
+def _record_shape(ctx: Ctx, f: FunctionInfo, src: ast.AST) -> Optional[Tuple[str, ...]]:
+    """('LastModified', 'ETag') for `(resp['LastModified'], resp.get('ETag'))` or `Stamp(resp['LastModified'], resp.get('ETag'))`
+    where Stamp is a NamedTuple / dataclass of the package (field-wise equality); None for anything else."""
+    elts: Optional[List[ast.AST]] = None
+    if isinstance(src, ast.Tuple):
+        elts = list(src.elts)
+    elif isinstance(src, ast.Call) and not any(k.arg is None for k in src.keywords):
+        dn = (dotted(src.func) or "").split(".")[-1]
+        for ci in ctx.prog.classes.values():
+            if ci.name != dn:
+                continue
+            bases = {(dotted(b) or "").split(".")[-1] for b in getattr(ci.node, "bases", [])}
+            decos = {(dotted(d.func if isinstance(d, ast.Call) else d) or "").split(".")[-1] for d in getattr(ci.node, "decorator_list", [])}
+            eq_defined = any(m_ in ci.methods for m_ in ("__eq__", "__ne__"))
+            if ("NamedTuple" in bases or "dataclass" in decos) and not eq_defined:
+                # keyword arguments are compared by name: order them
+                elts = list(src.args) + [k.value for k in sorted(src.keywords, key=lambda k: k.arg or "")]
+    if elts is None:
+        return None
+    out = []
+    for x in elts:
+        ks = {c.value for c in ast.walk(x) if isinstance(c, ast.Constant) and c.value in ("LastModified", "ETag")}
+        if len(ks) != 1:
+            return None
+        out.append(next(iter(ks)))
+    return tuple(out)
+
+
+def _field_sources(ctx: Ctx, f: FunctionInfo, side: ast.AST, at: int):  # type: ignore[no-untyped-def]
+    """resolve_value, looking through `record.field` when every source of `record` is a NamedTuple / dataclass construction
+    of the package: the argument bound to that field."""
+    if isinstance(side, ast.Attribute) and isinstance(side.value, ast.Name):
+        out = []
+        for src, sat in resolve_value(ctx, f, side.value, at):
+            arg = None
+            if isinstance(src, ast.Call) and not any(k.arg is None for k in src.keywords):
+                dn = (dotted(src.func) or "").split(".")[-1]
+                for ci in ctx.prog.classes.values():
+                    if ci.name != dn:
+                        continue
+                    fields = [st.target.id for st in getattr(ci.node, "body", []) if isinstance(st, ast.AnnAssign) and isinstance(st.target, ast.Name)]
+                    if side.attr in fields:
+                        i = fields.index(side.attr)
+                        arg = src.args[i] if i < len(src.args) else next((k.value for k in src.keywords if k.arg == side.attr), None)
+            if arg is None:
+                return resolve_value(ctx, f, side, at)
+            out.extend(resolve_value(ctx, f, arg, sat))
+        if out:
+            return out
+    return resolve_value(ctx, f, side, at)
+
+
 def polling_break_double_check(ctx: Ctx, rid: str = "C19.R14") -> None:
     ctx.rule(rid, "the polling provider breaks a lock only if it did not change while the breaker waited: the delete of the lock "
              "object is reached only when BOTH the LastModified and the ETag of the second HEAD equal the first (a renewal rewrites "
@@ -182,12 +234,14 @@ def polling_break_double_check(ctx: Ctx, rid: str = "C19.R14") -> None:
             if not eq:
                 continue
             keys = set()
+            shapes = set()
             for side in (e.left, e.comparators[0]):
                 # the response field each side was read from (through locals, tuple unpacking, in-place helper returns)
                 ks = set()
-                for src, sat in resolve_value(ctx, f, side, at):
+                for src, sat in _field_sources(ctx, f, side, at):
                     if src is None:
                         continue
+                    shapes.add(_record_shape(ctx, f, src))
                     ks |= {c.value for c in ast.walk(src) if isinstance(c, ast.Constant) and c.value in ("LastModified", "ETag")}
                     if not ks:
                         ks |= {c for c in sl.origins(src, sat)["consts"] if c in ("LastModified", "ETag")}
@@ -196,6 +250,10 @@ def polling_break_double_check(ctx: Ctx, rid: str = "C19.R14") -> None:
                 same.add("LastModified")
             if keys == {frozenset({"ETag"})}:
                 same.add("ETag")
+            if keys == {frozenset({"LastModified", "ETag"})} and len(shapes) == 1 and None not in shapes:
+                # both sides are the same record of the two fields (a tuple / NamedTuple / dataclass built the same way):
+                # equality of the records is equality of every field
+                same |= {"LastModified", "ETag"}
         ok = same == {"LastModified", "ETag"}
         ctx.ob(rid, f, "lock broken only if LastModified AND ETag are unchanged", d, ok,
                f"unchanged-checks dominating the delete: {sorted(same)}" + ("" if ok else " - a renewal during the breaker's pause goes "
@@ -410,6 +468,24 @@ def takeover_is_acquire(ctx: Ctx, rid: str) -> None:
            "accepts no commit until manual cleanup")
 
 
+def _response_source(ctx: Ctx, m: FunctionInfo, rhs: Optional[ast.AST], depth: int = 0) -> str:
+    """Which request produced a response value: the leaf name of the call (`put_object`), looking through a package helper
+    every result of which is that request's response (`def _put_lock_object(self, **precondition): return self.s3.put_object(...)`)."""
+    if not isinstance(rhs, ast.Call):
+        return "?"
+    leaf = (dotted(rhs.func) or "").split(".")[-1]
+    c = ctx.prog.resolve_call(rhs, m)
+    if c is not None and c.kind == "func" and len(c.funcs) == 1 and depth < 3 and not isinstance(c.funcs[0].node, ast.Lambda):
+        from .common import effective_returns
+        t = c.funcs[0]
+        rets = effective_returns(ctx, t)
+        inner = {_response_source(ctx, t, v, depth + 1) for _n, v in rets}
+        if len(inner) == 1:
+            return next(iter(inner))
+        return leaf
+    return leaf
+
+
 def r3(ctx: Ctx, rid: str) -> None:
     ctx.rule(rid, "S3 lock mutations are compare-and-swap: every put_object of S3LockProvider is conditional; takeover is guarded "
              "by the lease age from the same head_object response as its IfMatch ETag", 4)
@@ -477,13 +553,12 @@ def r3(ctx: Ctx, rid: str) -> None:
                     for d in defs:
                         dn = mg.nodes[d]
                         rhs = dn.ast.value if isinstance(dn.ast, ast.Assign) else None
-                        srcs.append((dotted(rhs.func) or "").split(".")[-1] if isinstance(rhs, ast.Call) else "?")
+                        srcs.append(_response_source(ctx, m, rhs))
                     fns = set(srcs)
                     own = bool(srcs) and all(x == "put_object" for x in srcs)
                 elif isinstance(v, ast.Subscript) and isinstance(v.value, ast.Name):
                     defs = ctx.rd(m).reaching(n.id, v.value.id)
-                    srcs = [(dotted(mg.nodes[d].ast.value.func) or "").split(".")[-1] if isinstance(mg.nodes[d].ast, ast.Assign)
-                            and isinstance(mg.nodes[d].ast.value, ast.Call) else "?" for d in defs]
+                    srcs = [_response_source(ctx, m, mg.nodes[d].ast.value) if isinstance(mg.nodes[d].ast, ast.Assign) else "?" for d in defs]
                     fns = set(srcs)
                     own = bool(srcs) and all(x == "put_object" for x in srcs)
                 else:
@@ -621,4 +696,11 @@ def r5(ctx: Ctx, rid: str = "C19.R5") -> None:
             rb = any(isinstance(c, ast.Call) and (dotted(c.func) or "").endswith("get_object") for c in org["calls"])
             if rb and t is not None and d.id in reachable_from(sg, t, NORMAL) and (fl is None or d.id not in reachable_from(sg, fl, NORMAL)):
                 ok = True
+        if not ok:
+            # the same test carried by a flag / a record field (`owner = Owner(content, content == self.lock_id)`; `if owner.is_us`)
+            for pol, e, at in facts_at(ctx, sr, d):
+                if isinstance(e, ast.Compare) and len(e.ops) == 1 and "lock_id" in norm_text(e) \
+                        and ((isinstance(e.ops[0], ast.Eq) and pol == "true") or (isinstance(e.ops[0], ast.NotEq) and pol == "false")) \
+                        and any(isinstance(c, ast.Call) and (dotted(c.func) or "").endswith("get_object") for c in sl.origins(e, at)["calls"]):
+                    ok = True
         ctx.ob(rid, sr, "delete_object only under content == lock_id", d, ok, "never delete a lock someone else now owns")
